@@ -31,7 +31,9 @@ class Report:
 
     # ------------------------------------------------------------------
     def rule(self, rid, desc, floor=1):
-        self.rules[rid] = dict(desc=desc, n=0, floor=floor)
+        # `floor` is the instance count confirmed by hand on the pinned tree.  The guard is against *vacuity* (a rule that matches
+        # nothing passes for ever), not against a refactoring that merges two sites into one: half the pinned count is required.
+        self.rules[rid] = dict(desc=desc, n=0, floor=max(1, floor // 2) if floor > 1 else floor, pinned=floor)
 
     def ob(self, rule, func, node, ok, text=None, detail='', why='', nontrivial=True, key_extra=''):
         """record one obligation. func: loader.Func or str; node: ast node or None."""
@@ -99,8 +101,8 @@ class Report:
             # floors guard against vacuous passes; a run that already found violations is not vacuous
             for rid, r in self.rules.items():
                 if r['n'] < r['floor']:
-                    floor_errors.append(f'rule {rid}: {r["n"]} instance(s) found, at least {r["floor"]} confirmed by hand '
-                                        f'on the pinned tree ({r["desc"]})')
+                    floor_errors.append(f'rule {rid}: {r["n"]} instance(s) found, {r.get("pinned", r["floor"])} confirmed by hand '
+                                        f'on the pinned tree, at least {r["floor"]} required ({r["desc"]})')
             if floor_errors:
                 analysis_error = 'instance floor not met: ' + '; '.join(floor_errors)
 
